@@ -44,9 +44,10 @@ PLAN = KillPlan()
 class TornWriter(io.RawIOBase):
     """Unbuffered writer forwarding to the real fd; dies after exactly `limit` bytes."""
 
-    def __init__(self, path: str, index: int) -> None:
+    def __init__(self, path: str, index: int, exclusive: bool = False) -> None:
         super().__init__()
-        self._fd = os.open(path, os.O_WRONLY | os.O_CREAT | os.O_TRUNC, 0o644)
+        flags = os.O_WRONLY | os.O_CREAT | (os.O_EXCL if exclusive else os.O_TRUNC)  # 'x' keeps its meaning
+        self._fd = os.open(path, flags, 0o644)
         self._index = index
         self._n = 0
         PLAN.bytes_by_file.append(0)
@@ -96,7 +97,7 @@ class CrashPath(pathlib.PosixPath):
         if "b" in mode and ("w" in mode or "x" in mode) and "+" not in mode:
             idx = PLAN.files_opened
             PLAN.files_opened += 1
-            raw = TornWriter(os.fspath(self), idx)
+            raw = TornWriter(os.fspath(self), idx, exclusive="x" in mode)
             if buffering == 0:
                 return raw
             return io.BufferedWriter(raw, buffer_size=8192)
